@@ -134,6 +134,48 @@ theorem starved_before_repair (T p : Nat) (hp : p < T) (n t0 : Nat) :
     rw [h1, show t0 + (n + 1) * p = (t0 + p) + n * p by rw [Nat.add_mul, Nat.one_mul]; omega]
     exact ih (t0 + p)
 
+/-! ### the syncer's expected ACK (`initResendUpTo`) and its 8-bit wrap -/
+
+/-- the value `(s + top - 1) % s` takes when `s + top` does not fit a byte -/
+theorem syncerExpect_val (s top : Nat) (hs : 0 < s) (hs255 : s ≤ 255) (ht : top < s) :
+    syncerExpect s top = .ok ((if s + top ≤ 256 then s + top - 1 else s + top - 257) % s, top) := by
+  have key : ((s + top) % 256 + 256 - 1 % 256) % 256 = if s + top ≤ 256 then s + top - 1 else s + top - 257 := by
+    split <;> omega
+  unfold syncerExpect modS add8 sub8
+  rw [if_neg (by omega), key]
+  rfl
+
+/-- **the sync wait expects the ACK of the last re-sent packet, `(top - 1) mod s`,
+    exactly when `s + top` fits a byte** — so for every window below 128 always,
+    and for larger windows only in the lower part of the sequence space -/
+theorem syncerExpect_correct_iff (s top : Nat) (hs : 0 < s) (hs255 : s ≤ 255) (ht : top < s) :
+    syncerExpect s top = .ok ((top + s - 1) % s, top) ↔ s + top ≤ 256 := by
+  rw [syncerExpect_val s top hs hs255 ht]
+  constructor
+  · intro h
+    by_cases hle : s + top ≤ 256
+    · exact hle
+    · exfalso
+      rw [if_neg hle] at h
+      have he : (s + top - 257) % s = (top + s - 1) % s := by
+        have := h; simp only [Outcome.ok.injEq, Prod.mk.injEq, and_true] at this; exact this
+      -- the two arguments differ by 256, so s would divide 256; but 128 < s < 256
+      have h1 : top + s - 1 = (s + top - 257) + 256 := by omega
+      rw [h1, Nat.add_mod] at he
+      have h256 : 256 % s = 256 - s := by
+        rw [Nat.mod_eq_sub_mod (by omega), Nat.mod_eq_of_lt (by omega)]
+      rw [h256] at he
+      have hx : (s + top - 257) % s < s := Nat.mod_lt _ hs
+      generalize (s + top - 257) % s = x at he hx
+      by_cases hc : x + (256 - s) < s
+      · rw [Nat.mod_eq_of_lt hc] at he; omega
+      · rw [Nat.mod_eq_sub_mod (by omega), Nat.mod_eq_of_lt (by omega)] at he; omega
+  · intro hle
+    rw [if_pos hle, show top + s - 1 = s + top - 1 by omega]
+
+/-- the wrap is real: window 199 (s = 200), top = 100 — the syncer waits for ACK 43, the last re-sent packet is 99 -/
+theorem syncerExpect_wrap_counterexample : syncerExpect 200 100 = .ok (43, 100) ∧ (100 + 200 - 1) % 200 = 99 := by decide
+
 /-! non-vacuity -/
 example : resendSeqs 4 5 3 1 = .ok [3, 0] := by decide
 open Lnc.Gbn.Control in
